@@ -14,7 +14,13 @@ Observed on the real asn1c built from the working tree (exploration, not proof):
      silent, permitted-alphabet tables a function of the alphabet alone;
  (g) module sets with cross-module name clashes, every file order: per-type files identical, and their names equal
      to the clash-marking model's (coq/Fix/NameClash.v: proved invariant under permutation of the module list);
- (h) code generation from the shipped corpus through the same process-image / valgrind / table oracles."""
+ (h) code generation from the shipped corpus through the same process-image / valgrind / table oracles;
+ (i) values (bit/character strings, reals, references, value assignments, exception specs, contained subtypes) in every
+     position, incl. four directed value-boundary modules in every run: (a) and (b) on them; the byte level of the value
+     sub-language is proved (coq/Fix/LexValues.v);
+ (j) 2-3 module sets with contained-subtype / value-reference chains across the modules, every file order: exit status,
+     `-E -F -print-constraints` text per module and per-type files identical; printed combined constraints equal to the
+     resolution model's (coq/Fix/Pullup.v: proved order independent) and to python's own order-free evaluation."""
 import sys, os, itertools, hashlib
 from concurrent.futures import ThreadPoolExecutor
 sys.path.insert(0, os.path.join(os.path.dirname(os.path.abspath(__file__)), "..", "lib"))
@@ -238,6 +244,23 @@ def det_runs(ctx, d, texts, files, opts, idx, use_valgrind=True):
     return res
 
 
+def vg_only_set_cxer_memcmp(summary):
+    """finding C12-set-cxer-map-uninit, as narrow as its cause: every error memcheck reports is the comparison of
+    the two tag maps in asn1c_lang_C_type_SET_def (memcmp/bcmp called from there, or the branch on its result)"""
+    blocks = [b for b in re.split(r"\n\s*\n", summary) if "at 0x" in b]
+    if not blocks:
+        return False
+    for b in blocks:
+        frames = re.findall(r"(?:at|by) 0x[0-9A-F]+: (\S+)", b)
+        if not frames:
+            return False
+        if frames[0] in ("bcmp", "memcmp", "__memcmp_avx2_movbe", "__memcmp_sse4_1"):
+            frames = frames[1:]
+        if not frames or frames[0] != "asn1c_lang_C_type_SET_def":
+            return False
+    return True
+
+
 def report_det(run, rep, r, what):
     """turns a det_runs result into violations / counters; returns True when quiet"""
     ok = True
@@ -251,9 +274,13 @@ def report_det(run, rep, r, what):
     if "vg" in r:
         run.count("valgrind_runs" if r["vg"][0] != 999 else "valgrind_timeouts")
         if r["vg"][0] == VG_RC:
-            ok = False
-            run.violation("oracle:uninitialised-read", dict(rep, what="valgrind memcheck reports an error in asn1c (%s)" % what,
-                          valgrind=r["vg"][1]))
+            if vg_only_set_cxer_memcmp(r["vg"][1]) and not bad:
+                run.known_finding("C12-set-cxer-map-uninit", what)
+                run.count("valgrind_known:C12-set-cxer-map-uninit")
+            else:
+                ok = False
+                run.violation("oracle:uninitialised-read", dict(rep, what="valgrind memcheck reports an error in asn1c (%s)" % what,
+                              valgrind=r["vg"][1]))
     return ok
 
 
@@ -449,6 +476,79 @@ def case_clash(ctx, idx, mods, opts, max_perms):
     return res
 
 
+LEAF_RE = re.compile(r"(MIN|-?\d+)\.\.(MAX|-?\d+|[a-z][A-Za-z0-9-]*)|([A-Z][A-Za-z0-9-]*(?:\.[A-Z][A-Za-z0-9-]*)?)|(-?\d+|[a-z][A-Za-z0-9-]*)")
+
+
+def constraint_leaves(text):
+    """the leaves of a printed constraint, left to right: ("r", lo, hi) | ("t", TypeName) | ("v", value); the set
+    operators, parentheses and SIZE/FROM wrappers are dropped (the model keeps the sequence of leaves only)"""
+    out = []
+    for m in LEAF_RE.finditer(re.sub(r"\b(SIZE|FROM|INCLUDES)\b", " ", text)):
+        if m.group(1) is not None:
+            out.append(("r", m.group(1), m.group(2)))
+        elif m.group(3) is not None:
+            out.append(("t", m.group(3)))
+        else:
+            out.append(("v", m.group(4)))
+    return out
+
+
+def parse_print_constraints(text):
+    """`asn1c -E -F -print-constraints` output -> {module: {"text": block, "types": {Name: {"combined": str|None, "practical": str|None}}}}"""
+    mods = {}
+    for b in re.split(r"\n(?=\S+ DEFINITIONS\b)", text):
+        if not b.strip():
+            continue
+        name = b.split()[0]
+        types, cur, open_c = {}, None, False
+        for line in b.split("\n"):
+            m = re.match(r"([A-Za-z][A-Za-z0-9-]*) ::= ", line)
+            if open_c:
+                # a constraint that is still a TYPE is printed through asn1print_expr, which (under
+                # -print-constraints) writes that type's own `-- ... constraints` lines into the middle
+                if not line.startswith("-- "):
+                    types[cur]["combined"] += " " + line
+                    open_c = types[cur]["combined"].count("(") > types[cur]["combined"].count(")")
+                continue
+            if m:
+                cur = m.group(1)
+                types[cur] = {"combined": None, "practical": None}
+            elif cur and line.startswith("-- Combined constraints: "):
+                types[cur]["combined"] = line[len("-- Combined constraints: "):]
+                open_c = types[cur]["combined"].count("(") > types[cur]["combined"].count(")")
+            elif cur and line.startswith("-- Practical constraints") and types[cur]["practical"] is None:
+                types[cur]["practical"] = line.split("): ", 1)[-1].strip()
+        mods[name] = {"text": b.strip(), "types": types}
+    return mods
+
+
+def case_xmod(ctx, idx, xset, opts, max_perms=6):
+    """one cross-module set, every order of the file list: exit status of `-E -F -print-constraints` and of code
+    generation, the per-module printed constraints, the per-type files"""
+    asn1c, skel, root = ctx
+    mods = xset["mods"]
+    d = os.path.join(root, "x%05d" % idx)
+    names = ["in/f%d.asn1" % i for i in range(len(mods))]
+    texts = {names[i]: m["text"] for i, m in enumerate(mods)}
+    perms = list(itertools.permutations(range(len(mods))))[:max_perms]
+    res = {"idx": idx, "perms": []}
+    for pi, perm in enumerate(perms):
+        P = os.path.join(d, "p%d" % pi)
+        write_inputs(P, texts)
+        files = [names[i] for i in perm]
+        rcE, so, seE = run_cmd([asn1c, "-E", "-F", "-print-constraints"] + files, P)
+        rcG, tree, seG = run_gen(ctx, P, files, opts)
+        res["perms"].append({"perm": perm, "rcE": rcE, "rcG": rcG, "pc": parse_print_constraints(so.decode("latin1")) if rcE == 0 else {},
+                             "files": per_type(tree), "seE": seE[-400:], "seG": seG[-400:]})
+    # once more in the first order with a larger environment (determinism of the multi-file run)
+    P = os.path.join(d, "p0b")
+    write_inputs(P, texts)
+    rcG, tree, _ = run_gen(ctx, P, [names[i] for i in perms[0]], opts, env=padded_env(3100 + idx % 9))
+    res["det"] = (rcG, diff_trees(per_type(tree), res["perms"][0]["files"]) if rcG == 0 and res["perms"][0]["rcG"] == 0 else [])
+    shutil.rmtree(d, ignore_errors=True)
+    return res
+
+
 def case_corpus_gen(ctx, idx, path, opts):
     """code generation from a shipped corpus file: process-image determinism, valgrind, alphabet tables"""
     asn1c, skel, root = ctx
@@ -640,7 +740,7 @@ def multi_modules(rng, size):
         m = g.module(name, nass=rng.range(1, 3), ext_refs=refs)
         # type names must be unique across the module set (one C file per type name)
         mods.append((m, imps))
-        exported.append((name, [n for n, _ in m["assigns"]]))
+        exported.append((name, [a[0] for a in m["assigns"] if len(a) == 2]))
     return mods
 
 
@@ -683,6 +783,9 @@ def main(tier):
         g = g_big if (not quick and i % 3 == 0) else (g_big if i % 5 == 0 else g_small)
         m = g.module("Mod%d" % i)
         singles.append((m, G.render(m, rng), "plain"))
+    # directed boundary cases of the value sub-language: the same in every run, whatever the seed
+    for m in G.value_boundary_modules():
+        singles.append((m, G.render(m, rng), "value-boundary"))
     # dedicated witnesses of the recorded findings (kept in every run, so that a fix shows up)
     nw = 4 if quick else 20
     made = 0
@@ -712,10 +815,16 @@ def main(tier):
         forced = None
         if i % 3 == 0:     # constraint-table coverage in every run, whatever the seed
             forced = ["alphabet", "alphabet"] + [rng.choice(G.RICH_BLOCKS) for _ in range(rng.range(0, 3))]
+        if i % 3 == 1:     # value notation coverage (hstring/bstring/braced values/REAL) in every run
+            forced = ["values"] + [rng.choice(G.RICH_BLOCKS) for _ in range(rng.range(0, 3))]
         m = R.module("Rich%d" % i, pfx="R", blocks=forced)
         opts = OPTION_SETS[i % len(OPTION_SETS)] if i < 2 * len(OPTION_SETS) else rng.choice(OPTION_SETS)
         extras = {0: ["dforms"], 4: ["dupfile"]}.get(i % 9, [])
         rich.append((m, opts, extras))
+    # dedicated witness of finding C12-includes-keyword-dropped (kept in every run, so that a fix shows up)
+    wi = "WitIncl DEFINITIONS ::= BEGIN\nBase ::= INTEGER (0..%d)\nInl ::= INTEGER (INCLUDES INTEGER (1..%d))\nRef ::= INTEGER (INCLUDES Base | %d)\nEND\n" % (
+        rng.range(50, 99), rng.range(2, 40), rng.range(100, 200))
+    rich.append(({"name": "WitIncl", "text": wi, "blocks": ["witness-includes-inline"], "alph": {}, "ids": []}, OPTION_SETS[0], []))
     rich_futs = [pool.submit(case_rich, ctx, i, m, opts, extras) for i, (m, opts, extras) in enumerate(rich)]
     nclash = 14 if quick else 90
     csets = []
@@ -724,6 +833,16 @@ def main(tier):
         opts = OPTION_SETS[0] if i % 2 == 0 else rng.choice(OPTION_SETS)
         csets.append((mods, opts))
     clash_futs = [pool.submit(case_clash, ctx, i, mods, opts, 6) for i, (mods, opts) in enumerate(csets)]
+    # cross-module constraint resolution: every shape once (directed), then random shapes; two witnesses of the
+    # recorded finding
+    nx = 18 if quick else 120
+    xsets = []
+    for i in range(nx):
+        xsets.append(G.xmod_set(rng, i, G.XM_SHAPES[i] if i < len(G.XM_SHAPES) else None))
+    xsets.append(G.xmod_witness(rng, 900, "fatal"))
+    xsets.append(G.xmod_witness(rng, 901, "silent"))
+    XOPTS = [OPTION_SETS[0], ["-pdu=all", "-fcompound-names", "-no-gen-OER"], ["-pdu=auto", "-fcompound-names", "-fwide-types"]]
+    xmod_futs = [pool.submit(case_xmod, ctx, i, xs, XOPTS[i % 3]) for i, xs in enumerate(xsets)]
     nsets = 12 if quick else 80
     sets = []
     for i in range(nsets):
@@ -742,7 +861,8 @@ def main(tier):
         except OSError:
             return False
     if quick:
-        gfiles = [p for p in allfiles if has_from(p)] + [p for p in files if not has_from(p)][:14]
+        # (the 700 KB rrc-7.1.0.asn1 takes 30-40 s per code generation, five in a row: thorough tier only)
+        gfiles = [p for p in allfiles if has_from(p)] + [p for p in files if not has_from(p) and os.path.getsize(p) < 200000][:14]
     else:
         gfiles = allfiles
     cgen_futs = [pool.submit(case_corpus_gen, ctx, i, p, OPTION_SETS[0] if i % 3 else OPTION_SETS[6]) for i, p in enumerate(gfiles)]
@@ -914,6 +1034,9 @@ def main(tier):
             rc1, same, se1, t1, t2 = r["fix"]
             if rc1 == 0 and same:
                 run.count("rich_fixpoint_ok")
+                if "witness-includes-inline" in m["blocks"]:
+                    run.violation("oracle:finding-not-reproduced", dict(rep, what="the witness of C12-includes-keyword-dropped is a print/parse fixpoint: "
+                                  "finding fixed? (update findings.d/C12.json)"), no_input=True)
             else:
                 cls = classify_rich_fixpoint(m, t1.decode("latin1"), rc1, se1)
                 if cls:
@@ -1030,6 +1153,124 @@ def main(tier):
                           "t0": dupmod, "model": mo, "rc": rcd, "stderr": sed[-300:]}, no_input=True)
         shutil.rmtree(dd, ignore_errors=True)
 
+    # 4d. cross-module constraint resolution: exit status, printed constraints and per-type files under every
+    #     order of the file list; combined constraints against the model (Fix/Pullup.v) and against python's own
+    #     order-free evaluation
+    pull_lines, pull_keys = [], []
+    for xi, xs in enumerate(xsets):
+        if xs["xs"] is None:
+            continue
+        for perm in list(itertools.permutations(range(len(xs["mods"]))))[:6]:
+            pull_lines.append("c12_pull " + " ".join(xs["xs"].model_args(perm, xs["mods"])))
+            pull_keys.append((xi, perm))
+    model_pull = {}
+    if have_model and pull_lines:
+        rcm, mo, me = run_lines(model, pull_lines)
+        if rcm != 0 or len(mo) != len(pull_lines):
+            run.violation("model:driver", {"what": "model driver failed on c12_pull", "stderr": me}, no_input=True)
+        else:
+            model_pull = dict(zip(pull_keys, mo))
+    for xi, (xs, f) in enumerate(zip(xsets, xmod_futs)):
+        r = f.result()
+        mods = xs["mods"]
+        run.case("xmod:%s:%s" % (xs["shape"], "+".join(m["name"] for m in mods)))
+        run.count("xmod_shape:" + xs["shape"])
+        rep = {"files": [m["text"] for m in mods], "shape": xs["shape"],
+               "replay_cmd": "asn1c -E -F -print-constraints f0.asn1 f1.asn1 ...  and  asn1c -S skeletons -pdu=all -fcompound-names -D out f0.asn1 ...  in every order of the files"}
+        perms = r["perms"]
+        base = perms[0]
+        run.count("xmod_permutations", len(perms))
+        if base["rcG"] == 0:
+            run.count("xmod_compiled")
+            run.count("xmod_per_type_files", len(base["files"]))
+        deviating = []
+        for p in perms[1:]:
+            why = None
+            if (p["rcE"], p["rcG"]) != (base["rcE"], base["rcG"]):
+                why = "exit status -E -F %d / code generation %d (first order: %d / %d): %s" % (p["rcE"], p["rcG"], base["rcE"], base["rcG"],
+                                                                                               (p["seE"] or p["seG"] or base["seE"] or base["seG"]).strip().split("\n")[-1][:200])
+            else:
+                dm = sorted(m for m in set(p["pc"]) | set(base["pc"]) if p["pc"].get(m, {}).get("text") != base["pc"].get(m, {}).get("text"))
+                dfl = diff_trees(base["files"], p["files"])
+                if dm or dfl:
+                    k0 = dfl[0] if dfl else None
+                    why = {"printed_constraints_differ_in": dm, "files": dfl[:8],
+                           "first": first_diff(base["files"].get(k0, b""), p["files"].get(k0, b"")) if k0 else
+                                    first_diff(base["pc"].get(dm[0], {}).get("text", ""), p["pc"].get(dm[0], {}).get("text", ""))}
+            if why:
+                deviating.append((p["perm"], why))
+        pairs = includes_foreign_with_refs(mods)
+        if deviating:
+            dev_perms = [d[0] for d in deviating] 
+            all_perms = [p["perm"] for p in perms]
+            explained = False
+            for (pi, qi) in pairs:
+                # the results agree among the orders that name Q before P; every other result belongs to an order with P before Q
+                good = [pm for pm in all_perms if pm.index(qi) < pm.index(pi)]
+                badp = [pm for pm in all_perms if pm.index(pi) < pm.index(qi)]
+                ref = good[0] if good else None
+                classes = {pm: (pm not in dev_perms) == (all_perms[0] not in dev_perms or pm == all_perms[0]) for pm in all_perms}
+                if good and all(same_xmod_result(perms, g, ref) for g in good) and \
+                        all(pm in badp for pm in all_perms if not same_xmod_result(perms, pm, ref)):
+                    explained = True
+            if explain_stale_asn(xs, perms):
+                run.known_finding("C12-print-constraints-stale-asn", xs["shape"])
+                run.count("xmod_known:C12-print-constraints-stale-asn")
+            elif explained:
+                run.known_finding("C12-includes-foreign-namespace", xs["shape"])
+                run.count("xmod_known:C12-includes-foreign-namespace")
+            else:
+                run.violation("oracle:file-order", dict(rep, what="exit status, printed constraints or per-type files depend on the order of the input file list "
+                              "(constraint resolution across modules)", deviating=[list(map(str, x)) for x in deviating[:4]]))
+        else:
+            run.count("xmod_order_independent")
+            if xs["witness"]:
+                run.violation("oracle:finding-not-reproduced", dict(rep, what="the witness of C12-includes-foreign-namespace is order independent: "
+                              "finding fixed? (update findings.d/C12.json)"), no_input=True)
+        rcd, dd = r["det"]
+        if rcd != base["rcG"] or dd:
+            run.violation("oracle:determinism", dict(rep, what="repeated multi-file runs differ (cross-module constraint set)", files=dd[:8]))
+        # combined constraints: C vs model (per order) and vs python's order-free evaluation
+        if xs["xs"] is not None:
+            X = xs["xs"]
+            want_py = {}
+            for ti, t in enumerate(X.types):
+                lv = X.leaves(ti)
+                want_py[t["name"]] = None if lv is None else [(("r", str(l[1]), str(l[2])) if l[0] == "L" else ("t", X.types[l[1]]["name"])) for l in lv]
+            cbad, obad = [], []
+            for p in perms:
+                if p["rcE"] != 0:
+                    continue
+                got = {}
+                for mname, mb in p["pc"].items():
+                    for tn, info in mb["types"].items():
+                        got[tn] = None if info["combined"] is None else constraint_leaves(info["combined"])
+                mline = model_pull.get((xi, p["perm"]))
+                if mline is not None:
+                    run.count("pullup_cases")
+                    words = mline.split()
+                    if words[:2] != ["wf=true", "ok=true"] or len(words) != 2 + len(X.types):
+                        cbad.append((p["perm"], "model refuses the set: " + mline[:100]))
+                    else:
+                        for ti, t in enumerate(X.types):
+                            wm = model_word_leaves(words[2 + ti], X)
+                            if got.get(t["name"], "absent") != wm:
+                                cbad.append((p["perm"], t["name"], {"model": wm, "c": got.get(t["name"], "absent")}))
+                for tn, wl in want_py.items():
+                    if got.get(tn, "absent") != wl:
+                        obad.append((p["perm"], tn, {"expected": wl, "c": got.get(tn, "absent")}))
+            if cbad:
+                run.count("model_vs_code_diff")
+                run.violation("correspondence:Pullup.combined", dict(rep, what="combined constraints: the resolution model (Fix/Pullup.v, unseeded) and asn1c disagree",
+                              diffs=[list(map(str, x)) for x in cbad[:4]]), no_input=not (obad or deviating))
+            if obad:
+                run.violation("oracle:combined-constraints", dict(rep, what="the combined constraints asn1c prints are not the ones the module set denotes "
+                              "(references resolved, parent's constraints first)", diffs=[list(map(str, x)) for x in obad[:4]]))
+            if not cbad and not obad:
+                run.count("xmod_combined_ok")
+    if xsets:
+        run.sample({"xmod_set": [m["text"] for m in xsets[0]["mods"]], "shape": xsets[0]["shape"]})
+
     # 5. shipped corpus ------------------------------------------------------
     for p, f in zip(files, corpus_futs):
         r = f.result()
@@ -1095,17 +1336,18 @@ def main(tier):
 
     aslr = open("/proc/sys/kernel/randomize_va_space").read().strip() if os.path.exists("/proc/sys/kernel/randomize_va_space") else "?"
     tb = ["Coq 8.16.1 kernel", "axioms under Print Assumptions: " + (", ".join(sorted(axioms)) or "none (Closed under the global context)"),
-          "extraction: ExtrOcamlBasic only; OCaml 4.13.1; ocaml/drv_c12.ml (AST reader)",
+          "extraction: ExtrOcamlBasic only; OCaml 4.13.1; ocaml/drv_c12.ml, ocaml/drv_c12p.ml (AST readers)",
           "checks/c12.py + checks/c12_gen.py: generator, renderer, yacc_norm (the constraint-tree shape yacc builds), file comparison, finding classifiers",
           "asn1c built by vlib.build_asn1c() from the working tree; kernel.randomize_va_space=" + aslr,
           "valgrind " + ("3.19 memcheck (--error-exitcode, leak check off)" if VALGRIND else "NOT AVAILABLE: uninitialised-read oracle skipped") + "; setarch -R " + ("available" if SETARCH else "not available"),
-          "determinism / file-order / same-code / corpus fixpoint / alphabet tables are observations of the C process on the generated cases, not theorems; the naming theorems (NameClash) are tied to the C only through the file names of the generated clash sets"]
+          "determinism / file-order / same-code / corpus fixpoint / alphabet tables are observations of the C process on the generated cases, not theorems; the naming theorems (NameClash) are tied to the C only through the file names of the generated clash sets; the resolution theorems (Pullup) only through the `-- Combined constraints:` lines of -print-constraints for the generated cross-module sets"]
     return run.finish("proof", (nthm, ndis), trusted_base=tb,
                       checker_cmd="make -C /verif all && coqc -Q coq A1 coq/Props/Properties_C12.v",
                       extra_cov={"theorems": names,
+                                 "rule3": "also a case: one cross-module constraint set (2-3 files, 12 shapes of contained-subtype / value-reference chains, every file order)",
                                  "rule2": "also a case: one rich module (text generator, one of 12 option sets), one clash set (2-3 files with cross-module name clashes, every file order), one corpus file compiled to code",
                                  "rule": "a case = one generated module (random AST of the modelled algebra rendered with random layout, comments, UNION/INTERSECTION spellings) or one multi-file module set (all permutations of the file list) or one shipped corpus file",
-                                 "observed_not_proved": ["determinism (3 runs per model-algebra module; 5 process shapes incl. valgrind per rich module / clash set / corpus file; ASLR=" + aslr + ")", "valgrind memcheck silent", "permitted-alphabet tables = function of the alphabet", "file-order independence", "same generated code for t0 and asn1c -E t0", "corpus fixpoint"],
+                                 "observed_not_proved": ["determinism (3 runs per model-algebra module; 5 process shapes incl. valgrind per rich module / clash set / corpus file; ASLR=" + aslr + ")", "valgrind memcheck silent", "permitted-alphabet tables = function of the alphabet", "file-order independence (per-type files; exit status and printed constraints for cross-module constraint sets)", "same generated code for t0 and asn1c -E t0", "corpus fixpoint"],
                                  "traces_validated_against_impl": run.dist.get("faithfulness_cases", 0)},
                       assumptions=["the yacc grammar is not modelled; the reference parser is tied to asn1c only through -E outputs",
                                    "per-type files = generated files carrying the `From ASN.1 module` header; Makefile.am.libasncodec / pdu_collection.c listing order under file permutation is recorded, not compared",
@@ -1114,13 +1356,98 @@ def main(tier):
                                    "-D spellings: per-type files are compared with the header line quoting the command line removed"])
 
 
+def same_xmod_result(perms, pa, pb):
+    a = [p for p in perms if p["perm"] == pa][0]
+    b = [p for p in perms if p["perm"] == pb][0]
+    if (a["rcE"], a["rcG"]) != (b["rcE"], b["rcG"]):
+        return False
+    if any(a["pc"].get(m, {}).get("text") != b["pc"].get(m, {}).get("text") for m in set(a["pc"]) | set(b["pc"])):
+        return False
+    return not diff_trees(a["files"], b["files"])
+
+
+def explain_stale_asn(xs, perms):
+    """finding C12-print-constraints-stale-asn, as narrow as its cause: the set has a type whose constraint stays a
+    TYPE after resolution (contained subtype naming an unconstrained type) in module M; code generation and
+    its files are the same in every order; `-E -F -print-constraints` dies (SIGSEGV/SIGABRT: mod->asn1p of a
+    module that did not come from the first file is a freed pointer) only in orders where M's file is not the
+    first, and prints the same text in all other orders"""
+    X = xs.get("xs")
+    if X is None:
+        return False
+    ms = {t["mod"] for t in X.types if any(l[0] == "I" and X.leaves(l[1]) is None for l in t["own"])}
+    if not ms:
+        return False
+    if any((p["rcG"], ) != (perms[0]["rcG"], ) or diff_trees(p["files"], perms[0]["files"]) for p in perms):
+        return False
+    ok = [p for p in perms if p["rcE"] == 0]
+    if any(p["rcE"] not in (0, -11, -6) for p in perms) or not ok:
+        return False
+    if any(p["pc"].get(m, {}).get("text") != ok[0]["pc"].get(m, {}).get("text") for p in ok for m in set(p["pc"]) | set(ok[0]["pc"])):
+        return False
+    return all(p["perm"][0] not in ms for p in perms if p["rcE"] != 0)
+
+
+def model_word_leaves(word, X):
+    """a word of the c12_pull answer in the form constraint_leaves gives for the C's text"""
+    if word == "N":
+        return None
+    out = []
+    for lf in word[2:].split(","):
+        if lf[0] == "L":
+            lo, hi = lf[1:].split("..")
+            out.append(("r", lo, hi))
+        elif lf[0] == "V":
+            lo, v = lf[1:].split("..v")
+            out.append(("r", lo, X.vals[int(v)]["name"]))
+        else:
+            out.append(("t", X.types[int(lf[1:])]["name"]))
+    return out
+
+
+def includes_foreign_with_refs(mods):
+    """root-cause predicate of finding C12-includes-foreign-namespace, on the module texts: module P has a contained
+    subtype constraint naming a type U it imports from module Q, and U's own constraint (in Q) holds a reference
+    (a value or type name).  Returns the (P, Q) index pairs."""
+    out = []
+    texts = [strip_comments(m["text"]) for m in mods]
+    names = [m["name"] for m in mods]
+    for pi, t in enumerate(texts):
+        imp = re.search(r"\bIMPORTS\b(.*?);", t, flags=re.S)
+        if not imp:
+            continue
+        imported = {}
+        for mm in re.finditer(r"([^;]*?)\bFROM\s+([A-Z][A-Za-z0-9-]*)", imp.group(1)):
+            for sym in re.findall(r"[A-Za-z][A-Za-z0-9-]*", mm.group(1)):
+                imported[sym] = mm.group(2)
+        body = t[imp.end():]
+        for mm in re.finditer(r"[(|^]\s*(?:INCLUDES\s+)?([A-Z][A-Za-z0-9-]*)\s*[)|^]", body):
+            u = mm.group(1)
+            if u in imported and imported[u] in names:
+                qi = names.index(imported[u])
+                d = re.search(r"\b%s\s*::=\s*[^\n]*?\((.*)\)" % re.escape(u), texts[qi])
+                if d and re.search(r"[A-Za-z]", re.sub(r"\b(SIZE|FROM|INCLUDES|MIN|MAX)\b", "", d.group(1))):
+                    out.append((pi, qi))
+    return sorted(set(out))
+
+
 def classify_rich_fixpoint(m, t1, rc1, se1):
     """rich modules: the recorded findings whose root-cause predicate the module satisfies, else None"""
     if rc1 != 0 and "Assertion" in se1 and text_has_nested_of_constraint(t1):
         return "C12-nested-of"
     if rc1 == 0 and text_has_triple_paren(m["text"]) and text_has_double_paren_after_print(t1):
         return "C12-paren-collapse"
+    if rc1 != 0 and includes_inline_type(m["text"]) and re.search(r"\(\s+(%s)\b" % BUILTIN_TYPE_WORDS, t1):
+        return "C12-includes-keyword-dropped"
     return None
+
+
+BUILTIN_TYPE_WORDS = "INTEGER|BOOLEAN|NULL|REAL|OCTET|BIT|ENUMERATED|SEQUENCE|SET|CHOICE|[A-Za-z0-9]+String|OBJECT|RELATIVE-OID"
+
+
+def includes_inline_type(text):
+    """root cause predicate of C12-includes-keyword-dropped: `INCLUDES` followed by a type that is not a reference"""
+    return bool(re.search(r"\bINCLUDES\s+(\[[^\]]*\]\s*)?(%s)\b" % BUILTIN_TYPE_WORDS, strip_comments(text)))
 
 
 def classify_corpus_fixpoint(src, t1, r):
@@ -1129,6 +1456,8 @@ def classify_corpus_fixpoint(src, t1, r):
         return "C12-nested-of"
     if r["E1"] == 0 and text_has_triple_paren(src) and text_has_double_paren_after_print(t1):
         return "C12-paren-collapse"
+    if r["E1"] != 0 and includes_inline_type(src) and re.search(r"\(\s+(%s)\b" % BUILTIN_TYPE_WORDS, t1):
+        return "C12-includes-keyword-dropped"
     return None
 
 
